@@ -144,6 +144,9 @@ class Check:
         if names != printed:
             self.broken("proof", relv, f"theorems {names} vs Print Assumptions {printed}")
             return False
+        # every file the property file imports must be built (make resolves the dependencies)
+        if not self.coq_make([relv[:-2] + ".vo"], timeout=timeout):
+            return False
         with Lock():
             rc, out, err = sh(["coqc", "-Q", ".", "Wz", "-w", "-notation-overridden", relv], cwd=COQ, timeout=timeout)
         if rc != 0:
